@@ -612,9 +612,9 @@ def check_dbus_consistency(obs, final_idle_expected):
             err = isinstance(ret, tuple) and len(ret) == 3 and ret[0] == 'error'
             if closed_seq is not None and seq > closed_seq:
                 continue
-            if member == 'send_bundle_data' and not err:
+            if member in ('send_bundle_data', 'send_bundle_file') and not err:
                 queued_at[str(ret)] = seq
-            elif member == 'recv_bundle_pop_data':
+            elif member in ('recv_bundle_pop_data', 'recv_bundle_pop_file'):
                 bid = str(args[0])
                 announced = [fseq for (fseq, fbid) in rx_fin if fbid == bid and fseq < seq]
                 if err:
@@ -626,6 +626,12 @@ def check_dbus_consistency(obs, final_idle_expected):
                     if not announced:
                         out.append(('pop', 'popped-unannounced', '%s popped transfer %s before it was announced' % (side, bid)))
                     popped_at[bid] = seq
+            elif member == 'get_connections' and not err:
+                opened = set(item[4][0] for item in obs.signals[side] if item[3] == 'connection_opened' and item[0] < seq)
+                gone = set(item[4][0] for item in obs.signals[side] if item[3] == 'connection_closed' and item[0] < seq)
+                got = set(str(item) for item in ret)
+                if got != opened - gone:
+                    out.append(('connections', 'mismatch', '%s lists connections %s, announced and not closed are %s' % (side, sorted(got), sorted(opened - gone))))
             elif member == 'recv_bundle_get_queue' and not err:
                 want = set(fbid for (fseq, fbid) in rx_fin if fseq < seq) - set(bid for (bid, pseq) in popped_at.items() if pseq < seq)
                 got = set(str(item) for item in ret)
